@@ -182,6 +182,10 @@ def evaluate(w, files, annotate, part, origin, wp=None):
 
 def make_input(r, corpus, k):
     c = r.random()
+    if c < 0.08:
+        return inputs.hier_program(r), 'hierarchy'
+    if c < 0.16:
+        return [('in.mamba', clip(inputs.type_fuzz_program(r)))], 'typefuzz'
     if c < 0.62:
         rel, src = r.choice(corpus)
         return [(rel, clip(inputs.mutate(src, r)))], 'mutated:' + rel
